@@ -207,12 +207,14 @@ def _ending(name):
         "blocked-exit": (["exit()"], 0, "FunctionNotAllowed", dict(exc=True)),
         "falsy-exception": (["class Nothing(Exception):", "    def __len__(self):", "        return 0",
                              "raise Nothing()"], 3, "Nothing", dict(exc=True)),
+        # exactly the base class (a tracer / handler that singles out the BASES of some special class)
+        "plain-exception": (["raise Exception('plain')"], 0, "Exception", dict(exc=True)),
     }
     return table[name]
 
 
 CONTAINED_ENDINGS = ["exception", "user-exception", "keyerror", "systemexit", "raise-systemexit", "blocked-exit",
-                     "falsy-exception"]
+                     "falsy-exception", "plain-exception"]
 ESCAPING_ENDINGS = ["keyboardinterrupt", "generatorexit", "user-baseexception"]
 MRO = {"Mine": ["Mine"] + sx.builtin_mro("ValueError"), "Halt": ["Halt", "BaseException"],
        "Nothing": ["Nothing"] + sx.builtin_mro("Exception"),
